@@ -35,7 +35,7 @@ SQ = chr(39)
 HEXL = '0123456789abcdef'
 HEXU = '0123456789ABCDEF'
 NAMED = {10: 'n', 13: 'r', 9: 't', 8: 'b', 0: '0', 34: DQ, 92: BS}          # value -> escape letter (strings)
-NAMEDC = {10: 'n', 13: 'r', 9: 't', 8: 'b', 0: '0', 34: DQ, 92: BS, 39: SQ}  # character constants
+NAMEDC = {10: 'n', 13: 'r', 9: 't', 8: 'b', 0: '0', 34: DQ, 92: BS, 39: SQ, 7: 'a', 12: 'f', 11: 'v'}  # character constants (the C escapes the reference promises: "behave as they do in C")
 
 _pctx = object.__new__(nmfu.ParseCtx)        # the converters use no instance state
 _cg = object.__new__(nmfu.CodegenCtx)        # _escape_string/_generate_set_string/_integer_containing use no instance state
@@ -188,7 +188,7 @@ str_hex1__explain = str_hex2__explain = str_plain__explain
 # ---------------------------------------------------------------------------------------------
 # _convert_char_const (callers take ord() of the result: nmfu.py _parse_math_expr / _parse_integer_expr)
 def dom_char(b, s):
-    return ((s == 0) & is_byte(b) & (b != 39) & (b != 92)) | ((s == 3) & (in_named(b) | (b == 39)))
+    return ((s == 0) & is_byte(b) & (b != 39) & (b != 92)) | ((s == 3) & (in_named(b) | (b == 39) | (b == 7) | (b == 12) | (b == 11)))
 
 
 def spell_char(b, s):
@@ -318,6 +318,77 @@ def bin_pairs__reach(data: List[int]) -> bool:
     post: not _
     """
     return True
+
+
+# word grouping: "0041 42"b -- the hex pairs of several bytes written without a blank between them form one word; the bytes are
+# the pairs whatever the grouping.  data: 2..N bytes, each from the alphabet WB (XH_WB, hex pairs; the values that matter to a
+# word-wise conversion: 00 as a leading/inner/trailing byte, a leading zero nibble, letters, the sign bit, all ones) -- which member is
+# solver-chosen per position; join[k] in {0,1}: 1 = byte k+1 continues the word of byte k (no blank), 0 = one blank between them
+# (symbolic grouping: every composition of len(data) into words of 1..len(data) bytes).  Lower-case digits (case: bin_string).
+# (A restricted byte alphabet because every hex digit is solver-enumerated: all 256 values per byte are 65 536 paths for two bytes --
+# harness bin_pairs, thorough tier.)
+WB = [int(x, 16) for x in os.environ.get('XH_WB', '00,01,0a,41,80,ff').split(',')]
+
+
+def in_wb(b):
+    ok = False
+    for v in WB:
+        ok = ok | (b == v)
+    return ok
+
+
+def dom_binw(data, join):
+    if not (2 <= len(data) <= N) or len(join) != len(data) - 1:
+        return False
+    ok = True
+    for b in data:
+        ok = ok & in_wb(b)
+    for j in join:
+        ok = ok & ((j == 0) | (j == 1))
+    return ok & part(data)
+
+
+def spell_binw(data, join):
+    out = ''
+    for i, b in enumerate(data):
+        if i > 0 and join[i - 1] == 0:
+            out += ' '
+        out += HEXL[b >> 4] + HEXL[b & 15]
+    return DQ + out + DQ
+
+
+def _binw_ok(data, join):
+    try:
+        r = _pctx._convert_binary_string(spell_binw(data, join))
+    except Exception:
+        return False
+    return r == chars(data)
+
+
+def bin_words(data: List[int], join: List[int]) -> bool:
+    """
+    pre: dom_binw(data, join)
+    post: _
+    """
+    return _binw_ok(data, join)
+
+
+def bin_words__reach(data: List[int], join: List[int]) -> bool:
+    """
+    pre: dom_binw(data, join)
+    post: not _
+    """
+    return len(data) == N and data[0] == 0 and data[N - 1] == 0 and sum(join) == N - 1
+
+
+def bin_words__explain(data, join):
+    tok = spell_binw(data, join)
+    d = {'token': tok, 'expected': list(data)}
+    try:
+        d['observed'] = [ord(c) for c in _pctx._convert_binary_string(tok)]
+    except Exception as e:
+        d['exc'] = type(e).__name__
+    return d
 
 
 def bin_string__explain(data, up, gaps):
@@ -674,6 +745,7 @@ HARNESSES = {
                                    regions=[('char_const__in_nul', 'C15-charconst-nul')]),
     'C15/convert_binary_string': dict(fn='bin_string', reach=['bin_string__reach']),
     'C15/convert_binary_string/pairs': dict(fn='bin_pairs', reach=['bin_pairs__reach']),
+    'C15/convert_binary_string/words': dict(fn='bin_words', reach=['bin_words__reach']),
     'C15/convert_int_dispatch': dict(fn='int_dispatch', reach=['int_dispatch__reach']),
     'C15/casei_pair': dict(fn='casei', reach=['casei__reach']),
     'C15/c_literal': dict(fn='c_literal', reach=['c_literal__reach', 'c_literal__excl__reach'], excl='c_literal__excl',
